@@ -582,12 +582,34 @@ class Repo:
                         loads.setdefault(y, []).extend(loads.pop(x, []))
                         stmts[i] = ast.copy_location(ast.Pass(), s_)
             scan(F.body)
+        def augment(F):
+            """`x = x + e` / `x = x - e` (x a plain name, e not reading x) is `x += e` / `x -= e`"""
+            class A(ast.NodeTransformer):
+                def visit_FunctionDef(self, node):
+                    return node if node is not F else self.generic_visit(node)
+
+                def visit_Assign(self, node):
+                    if len(node.targets) == 1 and isinstance(node.targets[0], ast.Name) and isinstance(node.value, ast.BinOp) \
+                            and isinstance(node.value.op, (ast.Add, ast.Sub)):
+                        x, v = node.targets[0].id, node.value
+                        l_is = isinstance(v.left, ast.Name) and v.left.id == x
+                        r_is = isinstance(v.right, ast.Name) and v.right.id == x
+                        other = v.right if l_is else (v.left if (r_is and isinstance(v.op, ast.Add)) else None)
+                        if other is not None and not (l_is and r_is) \
+                                and not any(isinstance(y, ast.Name) and y.id == x for y in ast.walk(other)) \
+                                and not any(isinstance(y, (ast.Constant,)) and isinstance(y.value, str) for y in ast.walk(other)) \
+                                and not isinstance(other, (ast.List, ast.Tuple, ast.ListComp)):
+                            new = ast.AugAssign(ast.Name(x, ast.Store()), type(v.op)(), other)
+                            return ast.fix_missing_locations(ast.copy_location(new, node))
+                    return node
+            A().visit(F)
         for rel, m in self.modules.items():
             for n in ast.walk(m.tree):
                 if isinstance(n, ast.FunctionDef):
                     n.body = rewrite(n.body)
                     if any(f == n.name for r_, f, h in self.inlined_helpers if r_ == rel):
                         drop_copies(n)
+                    augment(n)
 
     def _split_ifexp_statements(self, prefix="hrevolve_sequences/"):
         """NORM (builders only): an expression statement that contains `A if C else B` with a side-effect-free C becomes
@@ -666,8 +688,8 @@ class Repo:
                         return True
                 if isinstance(x, ast.Call) and isinstance(x.func, ast.Attribute) and base_name(x.func.value) in names:
                     return True
-                if isinstance(x, ast.Call) and any(isinstance(a, ast.Name) and a.id in names for a in x.args):
-                    # a mutable object handed to a call may be changed by it
+                if isinstance(x, ast.Call) and any(isinstance(a, ast.Name) and a.id in names and a.id not in scalars[0] for a in x.args):
+                    # a mutable object handed to a call may be changed by it (numbers cannot)
                     if not (isinstance(x.func, ast.Name) and x.func.id in ("len", "min", "max", "range", "int", "float", "argmin", "sum")):
                         return True
             return False
@@ -685,7 +707,28 @@ class Repo:
         def loads(node, name):
             return sum(1 for x in ast.walk(node) if isinstance(x, ast.Name) and x.id == name and isinstance(x.ctx, ast.Load))
 
+        scalars = [set()]
+
+        def scalar_names(fn):
+            """names that certainly hold numbers: operands of - * // / and of order comparisons, range() arguments, subscript
+            indices, targets of a numeric constant or of an augmented arithmetic assignment"""
+            out = set()
+            for x in ast.walk(fn):
+                if isinstance(x, ast.BinOp) and isinstance(x.op, (ast.Sub, ast.Mult, ast.FloorDiv, ast.Div, ast.Mod)):
+                    out |= {y.id for y in (x.left, x.right) if isinstance(y, ast.Name)}
+                elif isinstance(x, ast.Compare) and all(isinstance(o, (ast.Lt, ast.LtE, ast.Gt, ast.GtE)) for o in x.ops):
+                    out |= {y.id for y in [x.left] + list(x.comparators) if isinstance(y, ast.Name)}
+                elif isinstance(x, ast.Call) and isinstance(x.func, ast.Name) and x.func.id == "range":
+                    out |= {y.id for y in x.args if isinstance(y, ast.Name)}
+                elif isinstance(x, ast.Assign) and len(x.targets) == 1 and isinstance(x.targets[0], ast.Name) \
+                        and isinstance(x.value, ast.Constant) and isinstance(x.value.value, (int, float)) and not isinstance(x.value.value, bool):
+                    out.add(x.targets[0].id)
+                elif isinstance(x, ast.AugAssign) and isinstance(x.target, ast.Name) and isinstance(x.op, (ast.Sub, ast.Mult)):
+                    out.add(x.target.id)
+            return out
+
         def process(fn):
+            scalars[0] = scalar_names(fn)
             stores = {}
             comp_targets = {id(t) for c in ast.walk(fn) if isinstance(c, (ast.ListComp, ast.SetComp, ast.DictComp, ast.GeneratorExp))
                             for g_ in c.generators for t in ast.walk(g_.target)}
